@@ -209,7 +209,7 @@ def dK02b (script : List Op) (tg : Target) : Bool :=
       (indexed script).any (fun (i, op) => i < j && (match op with | .use r hs => r == s && !hs.isEmpty | _ => false))
     | _ => false
 
-/-! ### well-formed scripts (what the generators emit; hypothesis of `C02.compose_admitted_partial`) -/
+/-! ### well-formed scripts (what the generators emit; hypothesis of `C02.compose_admitted_mountfree`) -/
 
 /-- number of ops before time `t` that create an object of a class -/
 def cnt (isC : Op → Bool) (script : List Op) (t : Nat) : Nat := ((script.take t).filter isC).length
